@@ -10,8 +10,8 @@ every default DiagnosticFunction.diagnostic of pandapower.diagnostic.diagnostic_
     later call; register_function on one instance does not change another instance's function list nor the
     module-level default list; the module-level defaults keep their content.
 (b) Network unchanged (frame obligations, frame-tracking execution of the real diagnostic methods, see pyvc.frame):
-  on every normal exit, and on exit through one of the expected (non-convergence) exceptions raised by the power
-  flow, every element table of the user's network is the object it was on entry with no store into it, or has been
+  on every normal exit, on exit through one of the expected (non-convergence) exceptions raised by the power flow and on exit through any
+  other error of the power flow (diagnose_network swallows those into diag_errors and returns normally), every element table of the user's network is the object it was on entry with no store into it, or has been
   restored from a deep copy taken before the first store.
 """
 from __future__ import annotations
@@ -26,7 +26,7 @@ from pyvc.interp import Native, PyRaise, ObjVal
 PROP = "C30"
 DG = "pandapower.diagnostic.diagnostic"
 MIN_OBLIGATIONS = 12
-NOT_DECIDED = ["not decided: exit of a diagnostic function by an unexpected exception (outside the statement's quantifier)",
+NOT_DECIDED = ["not decided: exit of a diagnostic function by an exception that is neither raised by run(net) nor one of expected_exceptions",
                "not decided: report() output (logging only)"]
 
 
@@ -81,7 +81,13 @@ def run(vc):
         p.prove("init:instances-share-no-function-list", d1.attrs["_functions"] is not d2.attrs["_functions"], meta=dict(clause="alias"))
         k = d1.attrs["kwargs"]
         p.prove("init:kwargs-equal-defaults", isinstance(k, PDict) and k.to_dict() == defaults.to_dict(), meta=dict(clause="alias"))
-        p.prove("init:functions-equal-defaults", list(d1.attrs["_functions"]) == list(functions), meta=dict(clause="alias"))
+        f1, f2 = list(d1.attrs["_functions"]), list(d2.attrs["_functions"])
+        p.prove("init:functions-equal-defaults", [(n, a) for n, _, a in f1] == [(n, a) for n, _, a in functions], meta=dict(clause="alias"),
+                note="one entry per default function, same names and argument names")
+        p.prove("init:function-objects-per-instance", all(x[1] is not y[1] for x, y in zip(f1, functions)) and all(x[1] is not y[1] for x, y in zip(f1, f2)),
+                meta=dict(clause="alias"),
+                note="the function objects keep the state of their last run (for report()): an instance shares them neither with the module "
+                     "defaults nor with another instance")
         d0 = p.call(cls, add_default_functions=False).value
         p.prove("init:empty-without-defaults", len(d0.attrs["_functions"]) == 0 and len(d0.attrs["kwargs"].e) == 0, meta=dict(clause="alias"))
     vc.explore("Diagnostic.__init__", h_identity)
@@ -149,6 +155,16 @@ def run(vc):
 
     from contracts import C30_frame
     C30_frame.run(vc)
+    if not hasattr(vc, "native_standins"):
+        vc.native_standins = []
+    vc.native_standins.append(dict(
+        name="diagnose_network on fixed networks: net unchanged, instances independent",
+        bound="5 + 3 + 3 fixed networks (example_multivoltage / example_simple variants that do not converge, have implausible impedances, open "
+              "switches, a group member that gets replaced); the power flow handed over by run= fails with a UserWarning at its k-th call, k = "
+              "1..24; option / registration sequences on several instances",
+        script="import sys\nfrom replaylib.diagnostic import main_state, main_frame, main_frame_errors\n"
+               "for f in (main_state, main_frame, main_frame_errors):\n    try:\n        f()\n    except SystemExit as e:\n        if e.code:\n            raise\n",
+        timeout=2400))
 
 
 def classify(ob, model):
@@ -159,7 +175,9 @@ def replay(ob, model, finding=None):
     clause = ob.meta.get("clause")
     if clause == "frame":
         fn = ob.meta.get("function", "")
-        return {"script": f"# replay of {ob.id}\nfrom replaylib.diagnostic import main_frame\nmain_frame({fn!r})\n",
-                "description": "diagnose_network on networks that drive the diagnostic function into its modifying branch: tables unchanged"}
+        return {"script": f"# replay of {ob.id}\nimport sys\nfrom replaylib.diagnostic import main_frame, main_frame_errors\n"
+                          f"for f in (main_frame, main_frame_errors):\n    try:\n        f({fn!r})\n    except SystemExit as e:\n        if e.code:\n            raise\n",
+                "description": "diagnose_network on networks that drive the diagnostic function into its modifying branch, also with a power flow "
+                               "that fails with another error than a convergence error at its k-th call: tables unchanged"}
     return {"script": f"# replay of {ob.id}\nfrom replaylib.diagnostic import main_state\nmain_state()\n",
             "description": "two Diagnostic instances / two calls: options and registered functions must not leak"}
